@@ -319,4 +319,26 @@ theorem cpp_pulls_fixed (n : Nat) : ∀ (s : CppSt), InvC s.evs s.queue → s.sk
     obtain ⟨h1, h2, h3, h4⟩ := cpp_step_fixed s h hs
     simp only [cppPullsR, deliver, h1, ih _ h3 h4, h2]
 
+/-! ### small facts used by `Props/C14.lean` -/
+
+theorem inv_init (evs : List Ev) (h : loudEnd evs 0 = true) : Inv evs [] 0 :=
+  ⟨fun _ => by simp, rfl, h⟩
+
+theorem deliver_ge (l : List Tok) : ∀ n, l.length ≤ n → deliver l n = l ++ List.replicate (n - l.length) .eof := by
+  induction l with
+  | nil =>
+    intro n _
+    induction n with
+    | zero => rfl
+    | succ n ih => simp [deliver, ih, List.replicate_succ]
+  | cons a r ih =>
+    intro n hn
+    cases n with
+    | zero => simp at hn
+    | succ n =>
+      simp only [List.length_cons] at hn
+      have := ih n (by omega)
+      simp only [deliver, List.headD_cons, List.tail_cons, this, List.length_cons]
+      simp
+
 end FV.Lex
